@@ -318,8 +318,16 @@ def gen_cfg(rng, force: Optional[str] = None) -> R.Cfg:
         owner = user
     if rng.random() < 0.3:
         user = ""
-    return R.Cfg(V, R_, length, method, P, id0, user, owner, em, have_id, length_key,
-                 rng.choice(["StdCF", "StdCF", "MyFilter"]), rng.random() < 0.15 and P < 0)
+    cfg = R.Cfg(V, R_, length, method, P, id0, user, owner, em, have_id, length_key,
+                rng.choice(["StdCF", "StdCF", "MyFilter"]), rng.random() < 0.15 and P < 0)
+    if V >= 4 and rng.random() < 0.35:
+        # round 6: the /Length entry of a V >= 4 Encrypt dictionary is not the key length (Table 20: "only if V is 2
+        # or 3"); absent, or any multiple of 8 - the file key stays 16 / 32 bytes
+        if rng.random() < 0.3:
+            cfg.length_key = False
+        else:
+            cfg.dict_length = rng.choice([40, 64, 128, 256])
+    return cfg
 
 
 def gen_string(rng) -> bytes:
